@@ -14,6 +14,8 @@ import (
 
 	"seehuhn.de/go/sfnt"
 	"seehuhn.de/go/sfnt/cff"
+	"seehuhn.de/go/sfnt/cmap"
+	"seehuhn.de/go/sfnt/glyf"
 	"seehuhn.de/go/sfnt/glyph"
 	"seehuhn.de/go/sfnt/head"
 	"seehuhn.de/go/sfnt/opentype/anchor"
@@ -32,44 +34,46 @@ import (
 // Every field is a small enumeration; the harness instantiates the configuration
 // with seeded contents.
 type Cfg struct {
-	Kind    string `json:"kind"`    // "ttf", "cff", "cid"
-	FDs     int    `json:"fds"`     // cid: number of private dictionaries
-	Cmap    string `json:"cmap"`    // "4", "12", "none"
-	Comp    int    `json:"comp"`    // ttf: composite nesting depth
-	Names   bool   `json:"names"`   // ttf: glyph names
-	N       int    `json:"n"`       // number of glyphs
-	Gsub    string `json:"gsub"`    // "none", "liga", "multi"
-	Gpos    string `json:"gpos"`    // "none", "pair", "multi"
-	Gdef    bool   `json:"gdef"`    //
-	Tags    string `json:"tags"`    // script list tags: "x" (with -x- extension), "noext", "ambig"
-	Reg     bool   `json:"reg"`     //
-	Bold    bool   `json:"bold"`    //
-	Ital    bool   `json:"ital"`    //
-	Obl     bool   `json:"obl"`     //
-	Serif   bool   `json:"serif"`   //
-	Script  bool   `json:"script"`  //
-	Weight  int    `json:"weight"`  //
-	Width   int    `json:"width"`   //
-	Angle   int    `json:"angle"`   // italic angle in units of 2^-20 degree
-	Fam     string `json:"fam"`     // "plain", "bold", "italic", "semibold"
-	Times   string `json:"times"`   // "c", "m", "both"
-	Frac    bool   `json:"frac"`    // sub-precision parts: nanoseconds, time zone, quarter units, fractional CFF widths
-	VerHi   int    `json:"ver_hi"`  //
-	VerLo   int    `json:"ver_lo"`  //
-	Strs    string `json:"strs"`    // "ascii", "latin1", "bmp", "astral", "empty"
-	Upm     int    `json:"upm"`     //
-	Scripts string `json:"scripts"` // script lists: "simple", "multi" (several scripts, 0..5 explicit language systems each, shared feature tags)
-	THi     int    `json:"t_hi"`    // instant of the creation time: Unix seconds = t_hi * 2^24 + t_lo
-	TLo     int    `json:"t_lo"`    //
-	Asc     int    `json:"asc"`     //
-	Desc    int    `json:"desc"`    //
-	Gap     int    `json:"gap"`     //
-	Cap     int    `json:"cap"`     //
-	XH      int    `json:"xh"`      //
-	Ulp     int    `json:"ulp"`     // underline position, quarter units
-	Ult     int    `json:"ult"`     // underline thickness, quarter units
-	Vary    string `json:"vary"`    // "onefactor" generation: the field taken through its domain (informative)
-	Perm    int    `json:"perm"`    //
+	Kind     string `json:"kind"`     // "ttf", "cff", "cid"
+	FDs      int    `json:"fds"`      // cid: number of private dictionaries
+	Cmap     string `json:"cmap"`     // "4", "12", "none", "multi" (Unicode, Windows and Mac subtables with different languages, shared and distinct data)
+	GlyfSize int    `json:"glyfsize"` // ttf: exact size in bytes of the glyf table (0 = whatever results)
+	RawTabs  string `json:"rawtabs"`  // ttf: cvt/fpgm/prep/gasp: "none", "sep" (separate slices), "shared" (sub-slices of one buffer)
+	Comp     int    `json:"comp"`     // ttf: composite nesting depth
+	Names    bool   `json:"names"`    // ttf: glyph names
+	N        int    `json:"n"`        // number of glyphs
+	Gsub     string `json:"gsub"`     // "none", "liga", "multi"
+	Gpos     string `json:"gpos"`     // "none", "pair", "multi"
+	Gdef     bool   `json:"gdef"`     //
+	Tags     string `json:"tags"`     // script list tags: "x" (with -x- extension), "noext", "ambig"
+	Reg      bool   `json:"reg"`      //
+	Bold     bool   `json:"bold"`     //
+	Ital     bool   `json:"ital"`     //
+	Obl      bool   `json:"obl"`      //
+	Serif    bool   `json:"serif"`    //
+	Script   bool   `json:"script"`   //
+	Weight   int    `json:"weight"`   //
+	Width    int    `json:"width"`    //
+	Angle    int    `json:"angle"`    // italic angle in units of 2^-20 degree
+	Fam      string `json:"fam"`      // "plain", "bold", "italic", "semibold"
+	Times    string `json:"times"`    // "c", "m", "both"
+	Frac     bool   `json:"frac"`     // sub-precision parts: nanoseconds, time zone, quarter units, fractional CFF widths
+	VerHi    int    `json:"ver_hi"`   //
+	VerLo    int    `json:"ver_lo"`   //
+	Strs     string `json:"strs"`     // "ascii", "latin1", "bmp", "astral", "empty"
+	Upm      int    `json:"upm"`      //
+	Scripts  string `json:"scripts"`  // script lists: "simple", "multi" (several scripts, 0..5 explicit language systems each, shared feature tags)
+	THi      int    `json:"t_hi"`     // instant of the creation time: Unix seconds = t_hi * 2^24 + t_lo
+	TLo      int    `json:"t_lo"`     //
+	Asc      int    `json:"asc"`      //
+	Desc     int    `json:"desc"`     //
+	Gap      int    `json:"gap"`      //
+	Cap      int    `json:"cap"`      //
+	XH       int    `json:"xh"`       //
+	Ulp      int    `json:"ulp"`      // underline position, quarter units
+	Ult      int    `json:"ult"`      // underline thickness, quarter units
+	Vary     string `json:"vary"`     // "onefactor" generation: the field taken through its domain (informative)
+	Perm     int    `json:"perm"`     //
 }
 
 var families = map[string]string{
@@ -405,8 +409,18 @@ func Build(c Cfg, id int) *sfnt.Font {
 	}
 	o := fonts.Opts{Kind: c.Kind, N: n, Composites: c.Comp, Cmap: c.Cmap, Names: c.Names, FDs: c.FDs,
 		FracWidths: c.Frac && c.Kind != "ttf"}
+	if c.Cmap == "multi" {
+		o.Cmap = "4"
+	}
 	f := fonts.Make(rng, o)
 	total := f.NumGlyphs()
+	if c.Cmap == "multi" {
+		f.CMapTable = multiCmap(total)
+	}
+	if out, ok := f.Outlines.(*glyf.Outlines); ok {
+		padGlyf(rng, out, c.GlyfSize)
+		rawTables(out, c.RawTabs)
+	}
 	if out, ok := f.Outlines.(*cff.Outlines); ok && out.ROS != nil && 2*n+1 > 65535 {
 		for i := range out.GIDToCID { // CIDs are 16-bit values in the charset
 			out.GIDToCID[i] = cid.CID(i)
@@ -464,4 +478,118 @@ func Build(c Cfg, id int) *sfnt.Font {
 func (c Cfg) String() string {
 	return fmt.Sprintf("%s n=%d cmap=%s comp=%d gsub=%s gpos=%s gdef=%v tags=%s fam=%s w=%d/%d flags=%v%v%v%v angle=%d",
 		c.Kind, c.N, c.Cmap, c.Comp, c.Gsub, c.Gpos, c.Gdef, c.Tags, c.Fam, c.Weight, c.Width, c.Reg, c.Bold, c.Ital, c.Obl, c.Angle)
+}
+
+// multiCmap builds a cmap table with Unicode (0,3), (0,4), Windows (3,1), (3,10) and three
+// Macintosh (1,0) subtables that differ in their language; (0,3)/(3,1) and (0,4)/(3,10) share
+// their data, the Macintosh subtables are distinct.
+func multiCmap(total int) cmap.Table {
+	m4 := cmap.Format4{}
+	m12 := cmap.Format12{}
+	for i := 1; i < total; i++ {
+		if c := fonts.CodeOf(i, false); c > 0 && c < 0x10000 {
+			m4[uint16(c)] = glyph.ID(i)
+		}
+		if c := fonts.CodeOf(i, true); c > 0 {
+			m12[uint32(c)] = glyph.ID(i)
+		}
+	}
+	if len(m4) == 0 {
+		m4[0x20] = 0
+	}
+	if len(m12) == 0 {
+		m12[0x20] = 0
+	}
+	bmp, full := m4.Encode(0), m12.Encode(0)
+	return cmap.Table{
+		{PlatformID: 0, EncodingID: 3}:               bmp,
+		{PlatformID: 0, EncodingID: 4}:               full,
+		{PlatformID: 3, EncodingID: 1}:               bmp,
+		{PlatformID: 3, EncodingID: 10}:              full,
+		{PlatformID: 1, EncodingID: 0, Language: 0}:  bmp,
+		{PlatformID: 1, EncodingID: 0, Language: 5}:  m4.Encode(5),
+		{PlatformID: 1, EncodingID: 0, Language: 12}: m4.Encode(12),
+		{PlatformID: 1, EncodingID: 0, Language: 3}:  m4.Encode(3),
+	}
+}
+
+// padGlyf gives simple glyphs TrueType instructions so that the encoded glyf table has exactly
+// size bytes (glyph records are padded to even lengths; size must be even).
+func padGlyf(rng *rand.Rand, out *glyf.Outlines, size int) {
+	if size <= 0 {
+		return
+	}
+	cur := len(out.Glyphs.Encode().GlyfData)
+	need := size - cur
+	if need < 0 || need%2 != 0 {
+		vio.Fatal(fmt.Sprintf("cannot pad a glyf table of %d bytes to %d", cur, size))
+	}
+	maxInstr := 0
+	for i := 0; need > 0 && i < len(out.Glyphs); i++ {
+		g := out.Glyphs[i]
+		if g == nil {
+			continue
+		}
+		if _, ok := g.Data.(glyf.SimpleGlyph); !ok {
+			continue
+		}
+		old := len(out.Glyphs.Encode().GlyfData)
+		l := need
+		if l > 60000 {
+			l = 60000
+		}
+		for try := 0; try < 4; try++ { // the replaced outline has another length: correct for it
+			instr := make([]byte, l)
+			for k := range instr {
+				instr[k] = byte(1 + (k*7+i)%250)
+			}
+			out.Glyphs[i] = fonts.SimpleTT(fonts.RandContours(rand.New(rand.NewSource(int64(i)))), instr)
+			got := len(out.Glyphs.Encode().GlyfData) - old
+			want := need
+			if want > 60000 {
+				want = 60000
+			}
+			if got == want || l+want-got < 0 || l+want-got > 65535 {
+				break
+			}
+			l += want - got
+		}
+		if l > maxInstr {
+			maxInstr = l
+		}
+		need = size - len(out.Glyphs.Encode().GlyfData)
+	}
+	if got := len(out.Glyphs.Encode().GlyfData); got != size {
+		vio.Fatal(fmt.Sprintf("padded glyf table has %d bytes, wanted %d", got, size))
+	}
+	out.Maxp.MaxSizeOfInstructions = uint16(maxInstr)
+	_ = rng
+}
+
+// rawTables installs the raw TrueType tables with lengths 6, 5, 8, 7 (2, 1, 0, 3 mod 4): as separate
+// slices, or as consecutive sub-slices of one buffer, which is what a reader that slices one file
+// buffer produces.  A writer must not modify them.
+func rawTables(out *glyf.Outlines, how string) {
+	if how == "" || how == "none" {
+		return
+	}
+	names := []string{"cvt ", "fpgm", "gasp", "prep"}
+	lens := []int{6, 5, 8, 7}
+	buf := make([]byte, 0, 64)
+	for i := range names {
+		for k := 0; k < lens[i]; k++ {
+			buf = append(buf, byte(0x11*(i+1)+k))
+		}
+	}
+	buf = append(buf, 0xEE, 0xEE, 0xEE, 0xEE)
+	out.Tables = map[string][]byte{}
+	pos := 0
+	for i, n := range names {
+		part := buf[pos : pos+lens[i]]
+		if how == "sep" {
+			part = append([]byte(nil), part...)
+		}
+		out.Tables[n] = part
+		pos += lens[i]
+	}
 }
